@@ -8,7 +8,7 @@
 use super::{Operator, OperatorResult};
 use crate::execution::chunk::DataChunkBuilder;
 use crate::graph::lpg::LpgStore;
-use grafeo_common::types::{LogicalType, NodeId, PropertyKey, Value};
+use grafeo_common::types::{EpochId, LogicalType, NodeId, PropertyKey, TxId, Value};
 use std::sync::Arc;
 
 /// Merge operator for MERGE clause.
@@ -30,6 +30,10 @@ pub struct MergeOperator {
     on_match_properties: Vec<(String, Value)>,
     /// Whether we've already executed.
     executed: bool,
+    /// Epoch for MVCC visibility and versioning (store epoch when unset).
+    viewing_epoch: Option<EpochId>,
+    /// Transaction ID for versioning the created node.
+    tx_id: Option<TxId>,
 }
 
 impl MergeOperator {
@@ -50,7 +54,18 @@ impl MergeOperator {
             on_create_properties,
             on_match_properties,
             executed: false,
+            viewing_epoch: None,
+            tx_id: None,
         }
+    }
+
+    /// Sets the transaction context: matching uses the transaction's snapshot and a
+    /// created node is versioned with the transaction (so rollback discards it).
+    #[must_use]
+    pub fn with_tx_context(mut self, epoch: EpochId, tx_id: Option<TxId>) -> Self {
+        self.viewing_epoch = Some(epoch);
+        self.tx_id = tx_id;
+        self
     }
 
     /// Returns the variable name for the merged node.
@@ -70,7 +85,14 @@ impl MergeOperator {
 
         // Filter by all labels and properties
         for node_id in candidates {
-            if let Some(node) = self.store.get_node(node_id) {
+            let node = match self.viewing_epoch {
+                Some(epoch) => {
+                    self.store
+                        .get_node_versioned(node_id, epoch, self.tx_id.unwrap_or(TxId::SYSTEM))
+                }
+                None => self.store.get_node(node_id),
+            };
+            if let Some(node) = node {
                 // Check all labels
                 let has_all_labels = self.labels.iter().all(|label| node.has_label(label));
                 if !has_all_labels {
@@ -113,7 +135,15 @@ impl MergeOperator {
         }
 
         let labels: Vec<&str> = self.labels.iter().map(String::as_str).collect();
-        self.store.create_node_with_props(&labels, all_props)
+        match self.viewing_epoch {
+            Some(epoch) => self.store.create_node_with_props_versioned(
+                &labels,
+                all_props,
+                epoch,
+                self.tx_id.unwrap_or(TxId::SYSTEM),
+            ),
+            None => self.store.create_node_with_props(&labels, all_props),
+        }
     }
 
     /// Applies ON MATCH properties to an existing node.
